@@ -501,6 +501,9 @@ func (env *Env) tryIdent(name string) (tv TV, ok bool) {
 	if _, found := env.vars[name]; found {
 		return env.vars[name], true
 	}
+	if name == "result" || (strings.HasPrefix(name, "result") && len(name) == 7 && name[6] >= '0' && name[6] <= '9') {
+		return env.ident(name), true
+	}
 	if env.lookup != nil {
 		if v, found := env.lookup(name, env); found {
 			return v, true
